@@ -3,3 +3,4 @@ import Dagrt.Props.C10
 import Dagrt.Props.C14
 import Dagrt.Props.C04
 import Dagrt.Props.C05
+import Dagrt.Props.C08
